@@ -45,7 +45,7 @@ def collect(obligations):
 
 def node_of(p6):
     q = np.round(p6)
-    if np.abs(q - p6).max() > 1e-8:
+    if not (np.abs(q - p6).max() <= 1e-8):   # NaN counts as a deviation
         return None
     return tuple(int(x) for x in q)
 
@@ -73,7 +73,7 @@ def coarse_local(m, e, node):
     p0, p1, p2 = (m.xyz[v] for v in m.el[e])
     A = np.array([p1 - p0, p2 - p0]).T
     xi, res, _, _ = np.linalg.lstsq(A, p - p0, rcond=None)
-    if np.abs(A.dot(xi) - (p - p0)).max() > 1e-9:
+    if not (np.abs(A.dot(xi) - (p - p0)).max() <= 1e-9):   # NaN counts as a deviation
         return None
     return xi
 
